@@ -10,7 +10,7 @@
 (* without leading zeros -- a projection that needs no knowledge of the    *)
 (* type on the harness side.                                               *)
 (***************************************************************************)
-EXTENDS Wire, Expr, TLC, Json, IOUtils
+EXTENDS Helpers, Expr, TLC, Json, IOUtils
 
 Batch == JsonDeserialize(IOEnv.TRACE_FILE)
 Traces == Batch.traces
@@ -97,6 +97,43 @@ LayoutSeq(t) ==
             (IF t.ext THEN << <<"ahead", NBits(t)>> >> ELSE <<>>)
             \o FoldLeft(LAMBDA acc, x : acc \o LayoutSeq(t.fields[x].t), <<>>, Order(t.fields))
 
+(* ---- C19: what the Go / Python standard-mode output has to say about a message type ---- *)
+RECURSIVE GoShape(_)
+GoShape(t) ==
+    CASE t.k = "bool" -> [g |-> "bool"]
+      [] t.k \in {"byte", "uint", "enum"} -> [g |-> "uint", w |-> StorageBits(LeafBits(t))]
+      [] t.k = "int" -> [g |-> "int", w |-> StorageBits(LeafBits(t))]
+      [] t.k = "alias" -> GoShape(t.to)
+      [] t.k = "array" -> [g |-> "array", cap |-> t.cap, elem |-> GoShape(t.elem)]
+      [] t.k = "msg" -> [g |-> "struct"]
+
+RECURSIVE ProcTree(_)
+ProcTree(t) ==
+    CASE t.k \in {"bool", "byte"} -> [p |-> t.k]
+      [] t.k \in {"uint", "int", "enum"} -> [p |-> t.k, n |-> t.n]
+      [] t.k = "alias" -> [p |-> "alias", to |-> ProcTree(t.to)]
+      [] t.k = "array" -> [p |-> "array", ext |-> t.ext, cap |-> t.cap, elem |-> ProcTree(t.elem)]
+      [] t.k = "msg" ->
+            With(Order(t.fields), LAMBDA ord :
+                [p |-> "msg", ext |-> t.ext, nbits |-> NBits(t),
+                 fields |-> Eager([x \in 1..Len(ord) |->
+                                [num |-> t.fields[ord[x]].num, t |-> ProcTree(t.fields[ord[x]].t)]])])
+
+(* what a field's type bottoms out at, looking through aliases and arrays *)
+RECURSIVE Bottom(_, _)
+Bottom(t, depth) ==
+    CASE t.k = "alias" -> Bottom(t.to, depth)
+      [] t.k = "array" -> Bottom(t.elem, depth + 1)
+      [] OTHER -> [depth |-> depth, leaf |-> t]
+
+FieldsInOrder(t) == With(Order(t.fields), LAMBDA ord :
+                        [x \in 1..Len(ord) |-> [num |-> t.fields[ord[x]].num, name |-> t.fields[ord[x]].name,
+                                                t |-> t.fields[ord[x]].t, pos |-> x]])
+LeafRows(t) == SelectSeq(FieldsInOrder(t), LAMBDA f : Bottom(f.t, 0).leaf.k # "msg")
+MsgRows(t) == SelectSeq(FieldsInOrder(t), LAMBDA f : Bottom(f.t, 0).leaf.k = "msg")
+SignRows(t) == SelectSeq(FieldsInOrder(t), LAMBDA f :
+                    Bottom(f.t, 0).leaf.k = "int" /\ Bottom(f.t, 0).leaf.n \notin {8, 16, 32, 64})
+
 (* ---- event guards: each returns "" when the event is explained by the   *)
 (* spec, otherwise the name of the failing clause ----                     *)
 Check(tr, e) ==
@@ -177,6 +214,46 @@ Check(tr, e) ==
                           ELSE IF \E x \in 1..Len(st.mem) : \E b \in 1..Len(st.mem[x]) : st.mem[x][b] = Old
                                THEN "decoder-relies-on-unzeroed-target"
                           ELSE "decoder-bits"
+      [] e.ev = "GoStruct" ->
+            \* fields in field-number order, each with the smallest covering Go type
+            IF e.fields = [x \in 1..Len(t.fields) |-> GoShape(FieldsInOrder(t)[x].t)]
+            THEN "" ELSE "go-struct"
+      [] e.ev = "Sizes" ->
+            IF e.go_const # NBytes(t) THEN "go-size-constant"
+            ELSE IF e.go_method # NBytes(t) THEN "go-size-method"
+            ELSE IF e.py # NBytes(t) THEN "python-size" ELSE ""
+      [] e.ev = "Tree" -> IF e.tree = ProcTree(t) THEN "" ELSE "processor-tree:" \o e.lang
+      [] e.ev = "GoRows" ->
+            \* byte accessors: for each field number exactly that field, right array depth and conversion
+            IF e.set # [x \in 1..Len(LeafRows(t)) |->
+                            << LeafRows(t)[x].num, Bottom(LeafRows(t)[x].t, 0).depth, LeafRows(t)[x].pos,
+                               GoShape(Bottom(LeafRows(t)[x].t, 0).leaf) >>] THEN "go-set-byte"
+            ELSE IF e.get # [x \in 1..Len(LeafRows(t)) |->
+                            << LeafRows(t)[x].num, Bottom(LeafRows(t)[x].t, 0).depth, LeafRows(t)[x].pos >>]
+                 THEN "go-get-byte"
+            ELSE IF e.acc # [x \in 1..Len(MsgRows(t)) |->
+                            << MsgRows(t)[x].num, Bottom(MsgRows(t)[x].t, 0).depth, MsgRows(t)[x].pos >>]
+                 THEN "go-get-accessor"
+            ELSE IF e.sign # [x \in 1..Len(SignRows(t)) |->
+                            LET b == Bottom(SignRows(t)[x].t, 0)
+                                d == StorageBits(b.leaf.n) - b.leaf.n
+                            IN  << SignRows(t)[x].num, b.depth, SignRows(t)[x].pos, d, d >>]
+                 THEN "go-sign-extension"
+            ELSE ""
+      [] e.ev = "GoHelpers" ->
+            IF ~MaskOK(e.defs, "getMask") THEN "go-getMask"
+            ELSE IF ~NCopyOK(e.defs, "getNbitsToCopy") THEN "go-getNbitsToCopy"
+            ELSE IF ~ShiftOK(e.defs, "smartShift") THEN "go-smartShift"
+            ELSE IF ~MinOK(e.defs, "min") THEN "go-min"
+            ELSE ""
+      [] e.ev = "GoSkip" -> IF GoSkipOK(e.defs) THEN "" ELSE "go-skip-formula"
+      [] e.ev = "PyHelpers" ->
+            IF \E x \in 1..Len(e.mask) : e.mask[x][3] # Mask(e.mask[x][1], e.mask[x][2]) THEN "py-get_mask"
+            ELSE IF \E x \in 1..Len(e.ncopy) : e.ncopy[x][4] # NCopy(e.ncopy[x][1], e.ncopy[x][2], e.ncopy[x][3])
+                 THEN "py-get_nbits_to_copy"
+            ELSE IF \E x \in 1..Len(e.shift) : e.shift[x][3] % 256 # SmartShift(e.shift[x][1], e.shift[x][2]) % 256
+                 THEN "py-smart_shift"
+            ELSE ""
       [] e.ev = "SameLayout" ->
             LET a == LayoutSeq(e.t1)
                 b == LayoutSeq(e.t2)
